@@ -4,7 +4,9 @@ import (
 	"encoding/hex"
 	"fmt"
 	"os"
+	"reflect"
 	"testing/synctest"
+	"unsafe"
 
 	"github.com/ontio/ontology-crypto/keypair"
 	"github.com/ontio/ontology/account"
@@ -74,7 +76,7 @@ func (ch *Chain) Open() error {
 	ch.Opens++
 	err = st.InitLedgerStoreWithGenesisBlock(ch.Gen, []keypair.PublicKey{ch.Book.PublicKey})
 	if err != nil {
-		st.Close()
+		CloseStore(st)
 		return err
 	}
 	ch.Store = st
@@ -87,12 +89,38 @@ func (ch *Chain) Open() error {
 // image: on a crashed disk nothing more reaches the image).
 func (ch *Chain) Close() {
 	if ch.Store != nil {
-		func() {
-			defer func() { recover() }()
-			ch.Store.Close()
-		}()
+		CloseStore(ch.Store)
 		ch.Store = nil
 		ch.Ledger = nil
+	}
+}
+
+// CloseStore closes a ledger store. LedgerStoreImp.Close returns at the first
+// database whose Close reports an error (goleveldb reports the failed write of a
+// crashed disk there), which would leave the remaining databases of a dead
+// process image open, with their goroutines in the bubble; every store is
+// therefore also closed individually.
+func CloseStore(st *ledgerstore.LedgerStoreImp) {
+	if st == nil {
+		return
+	}
+	func() {
+		defer func() { recover() }()
+		st.Close()
+	}()
+	v := reflect.ValueOf(st).Elem()
+	for _, name := range []string{"blockStore", "eventStore", "crossChainStore", "stateStore"} {
+		f := v.FieldByName(name)
+		if !f.IsValid() || f.IsNil() {
+			continue
+		}
+		x := reflect.NewAt(f.Type(), unsafe.Pointer(f.UnsafeAddr())).Elem().Interface()
+		if cl, ok := x.(interface{ Close() error }); ok {
+			func() {
+				defer func() { recover() }()
+				cl.Close()
+			}()
+		}
 	}
 }
 
@@ -171,14 +199,12 @@ func (ch *Chain) OpenSplit(between func()) error {
 	}
 	ch.Opens++
 	if between != nil {
+		Quiesce() // background compaction must not race with the crash numbering
 		between()
 	}
 	err = st.InitLedgerStoreWithGenesisBlock(ch.Gen, []keypair.PublicKey{ch.Book.PublicKey})
 	if err != nil {
-		func() {
-			defer func() { recover() }()
-			st.Close()
-		}()
+		CloseStore(st)
 		return err
 	}
 	ch.Store = st
